@@ -126,7 +126,9 @@ def find_islands(im, bkg, rms,
                 # numpy index [row, col] is the 0-based FITS pixel (col, row)
                 rows, cols = np.where(own)
                 xy = list(zip(cols + ymin, rows + xmin))
-                ra, dec = wcs.wcs.wcs_pix2world(xy, 0).transpose()
+                # (the full transformation, including SIP / distortion terms,
+                # as WCSHelper.pix2sky uses for source positions)
+                ra, dec = wcs.wcs.all_pix2world(xy, 0).transpose()
                 mask = region.sky_within(ra, dec, degin=True)
                 if not np.any(mask):
                     continue
